@@ -88,7 +88,7 @@ Lemma prologue_ok o h g l be fds (devflag : bool) (devs : list (N * N * N)) pay 
   let r1 := RDef l be c_MesgNumFileId fds devflag devs in
   let r2 := RData l pay dev in
   rec_wf r1 = true -> rec_wf r2 = true ->
-  denote_from ss_init [r1; r2] = Some ssb -> no_time_quirk_from ss_init [r1; r2] = true ->
+  denote_from ss_init [r1; r2] = Some ssb ->
   start_file h g (hd dummy_msg (ss_msgs ssb)) = Some (f2, g1) ->
   (List.length (ser_record r1) + List.length (ser_record r2) <= lim)%nat ->
   exists sb ft,
@@ -97,12 +97,10 @@ Lemma prologue_ok o h g l be fds (devflag : bool) (devs : list (N * N * N)) pay 
       ROk tt (ast_at [] tl t (List.length (ser_record r1) + List.length (ser_record r2)) lim) sb /\
     Inv o [hd dummy_msg (ss_msgs ssb)] f2 g1 ft sb ssb.
 Proof.
-  intros r1 r2 Hwf1 Hwf2 Hden Hq Hstart Hlim.
+  intros r1 r2 Hwf1 Hwf2 Hden Hstart Hlim.
   cbn [denote_from] in Hden.
   destruct (denote_record ss_init r1) as [ssa|] eqn:E1; [|discriminate].
   destruct (denote_record ssa r2) as [ssb'|] eqn:E2; [|discriminate]. inversion Hden; subst ssb'. clear Hden.
-  cbn [no_time_quirk_from] in Hq. rewrite E1, E2 in Hq.
-  apply andb_prop in Hq. destruct Hq as [_ Hq]. apply andb_prop in Hq. destruct Hq as [Hq2 _].
   (* the definition *)
   unfold r1 in E1. cbn [denote_record] in E1.
   destruct ((16 <=? l) || (c_MesgNumFileId =? c_MesgNumInvalid) || negb (forallb (compat c_MesgNumFileId) fds)) eqn:Echk; [discriminate|].
@@ -116,15 +114,15 @@ Proof.
   assert (Hdm : dm_ok dm d) by (unfold dm_ok, dm, d; cbn [dm_be dm_gmn dm_fdefs dm_devs sd_be sd_gmn sd_fds sd_devsize]; repeat split; assumption).
   inversion E1; subst ssa. clear E1.
   (* the data record *)
-  unfold r2 in E2, Hq2. cbn [denote_record] in E2. cbn [record_time_ok] in Hq2.
-  unfold denote_data in E2. cbn [ss_env ss_init ss_ref ss_msgs ss_unkm ss_unkf] in E2, Hq2.
-  rewrite lookup_def_cons, N.eqb_refl in E2, Hq2.
+  unfold r2 in E2. cbn [denote_record] in E2.
+  unfold denote_data in E2. cbn [ss_env ss_init ss_ref ss_msgs ss_unkm ss_unkf] in E2.
+  rewrite lookup_def_cons, N.eqb_refl in E2.
   destruct (negb (Nat.eqb (List.length pay) (payload_size d)) || negb (Nat.eqb (List.length dev) (sd_devsize d))) eqn:Elen; [discriminate|].
   apply orb_false_elim in Elen. destruct Elen as [Elp Eld].
   apply negb_false_iff, Nat.eqb_eq in Elp. apply negb_false_iff, Nat.eqb_eq in Eld.
-  change (sd_gmn d) with c_MesgNumFileId in E2, Hq2. rewrite known_fileid in E2, Hq2.
+  change (sd_gmn d) with c_MesgNumFileId in E2. rewrite known_fileid in E2.
   destruct (mesg_all_invalid c_MesgNumFileId) as [m0|] eqn:Emai; [|discriminate].
-  cbn [andb] in Hq2. change (sd_be d) with be in *. change (sd_fds d) with fds in *.
+  change (sd_be d) with be in *. change (sd_fds d) with fds in *.
   pose proof (denote_fields_num be c_MesgNumFileId fds pay m0 None []) as Hnum.
   destruct (denote_fields be c_MesgNumFileId fds pay m0 None []) as [[m2 ref2] unl] eqn:Edf. cbn [fst] in Hnum.
   inversion E2; subst ssb. clear E2. cbn [ss_msgs app hd] in Hstart |- *.
@@ -156,18 +154,18 @@ Proof.
   rewrite (data_message_uses_own_slot o l false _ sa dm) by (rewrite (data_header_local l El); exact Hnth).
   unfold data_message_with. cbn [dm_gmn dm]. rewrite known_fileid, Emai. rewrite bind_ret. cbn [negb].
   destruct (data_fields_known o dm d [] Hdm known_fileid m0 None sa pay dev tl t (0 + 1 + List.length (def_body be c_MesgNumFileId fds devflag devs) + 1)%nat lim
-              Elp Eld Hbp eq_refl Hq2 (fun _ => eq_refl) ltac:(lia))
-    as (ts' & lo' & uf' & q' & Hrun & Ht & Hu1 & Hu2).
+              Elp Eld Hbp eq_refl (fun _ => eq_refl) ltac:(lia))
+    as (hs' & ts' & lo' & uf' & Hrun & Ht & Hu1 & Hu2).
   change (sd_be d) with be in Hrun, Ht, Hu1. change (sd_gmn d) with c_MesgNumFileId in Hrun, Ht, Hu1. change (sd_fds d) with fds in Hrun, Ht, Hu1.
   rewrite Edf in Hrun, Ht, Hu1. cbn [fst snd] in Hrun, Ht, Hu1.
   rewrite Hrun. cbn [rbind]. rewrite Hnum, N.eqb_refl.
   unfold add_msg, get_st, put_st. cbn [bind]. rewrite run_get.
-  change (ds_file (st_upd sa ts' lo' uf' q')) with (new_file h). change (ds_g (st_upd sa ts' lo' uf' q')) with g.
+  change (ds_file (st_upd sa hs' ts' lo' uf')) with (new_file h). change (ds_g (st_upd sa hs' ts' lo' uf')) with g.
   rewrite Eadd. rewrite run_put. cbn [rbind run_a].
   unfold do_init, get_st, put_st. cbn [bind]. rewrite run_get. cbn [with_file ds_file ds_g]. rewrite Einit. rewrite run_put. cbn [run_a].
   eexists. exists (file_type f1). split.
   { f_equal. f_equal. rewrite app_length. cbn [List.length]. lia. }
-  constructor; cbn [with_file st_upd ds_defs ds_ts ds_lastoff ds_unkf ds_unkm ds_file ds_g ss_env ss_ref ss_msgs ss_unkm ss_unkf sa with_defs init_dstate];
+  constructor; cbn [with_file st_upd ds_defs ds_ts ds_lastoff ds_hasts ds_unkf ds_unkm ds_file ds_g ss_env ss_ref ss_msgs ss_unkm ss_unkf sa with_defs init_dstate];
     try assumption.
   - rewrite set_nth_length. apply repeat_length.
   - intros l' Hl'. rewrite lookup_def_cons.
@@ -182,7 +180,7 @@ Qed.
 (* ------------------------------------------------------------ the whole buffered phase *)
 Theorem data_prog_denote : forall o h g l be fds (devflag : bool) (devs : list (N * N * N)) pay dev rest ss1 f2 g1 tl t fuel,
   let rs := RDef l be c_MesgNumFileId fds devflag devs :: RData l pay dev :: rest in
-  stream_wf rs = true -> no_time_quirk rs = true -> denote rs = Some ss1 ->
+  stream_wf rs = true -> denote rs = Some ss1 ->
   start_file h g (hd dummy_msg (ss_msgs ss1)) = Some (f2, g1) ->
   (List.length rest < fuel)%nat ->
   exists s1 ft,
@@ -190,22 +188,15 @@ Theorem data_prog_denote : forall o h g l be fds (devflag : bool) (devs : list (
       ROk tt (ast_at [] tl t (List.length (ser_records rs)) (List.length (ser_records rs))) s1 /\
     Inv o [hd dummy_msg (ss_msgs ss1)] f2 g1 ft s1 ss1.
 Proof.
-  intros o h g l be fds devflag devs pay dev rest ss1 f2 g1 tl t fuel rs Hwf Hq Hden Hstart Hfuel.
+  intros o h g l be fds devflag devs pay dev rest ss1 f2 g1 tl t fuel rs Hwf Hden Hstart Hfuel.
   set (r1 := RDef l be c_MesgNumFileId fds devflag devs) in *. set (r2 := RData l pay dev) in *.
   unfold rs in *. cbn [stream_wf forallb] in Hwf.
   apply andb_prop in Hwf. destruct Hwf as [Hwf1 Hwf]. apply andb_prop in Hwf. destruct Hwf as [Hwf2 Hwf].
-  unfold denote in Hden. unfold no_time_quirk in Hq.
-  change (r1 :: r2 :: rest) with ([r1; r2] ++ rest) in Hden, Hq.
+  unfold denote in Hden.
+  change (r1 :: r2 :: rest) with ([r1; r2] ++ rest) in Hden.
   assert (Happ : forall a b s, denote_from s (a ++ b) = match denote_from s a with Some s' => denote_from s' b | None => None end).
   { induction a as [|x a IH]; intros b s; cbn [app denote_from]; [reflexivity|]. destruct (denote_record s x); [apply IH|reflexivity]. }
   rewrite Happ in Hden. destruct (denote_from ss_init [r1; r2]) as [ssb|] eqn:Eb; [|discriminate].
-  assert (Hq12 : no_time_quirk_from ss_init [r1; r2] = true /\ no_time_quirk_from ssb rest = true).
-  { cbn [app no_time_quirk_from] in Hq |- *. cbn [denote_from] in Eb.
-    destruct (denote_record ss_init r1) as [ssa|]; [|discriminate].
-    destruct (denote_record ssa r2) as [ssb'|]; [|discriminate]. inversion Eb; subst ssb'.
-    apply andb_prop in Hq. destruct Hq as [Ha Hq]. apply andb_prop in Hq. destruct Hq as [Hb Hq].
-    rewrite Ha, Hb. split; [reflexivity|exact Hq]. }
-  destruct Hq12 as [Hqa Hqb].
   destruct (denote_from_msgs _ _ _ Hden) as [ms Hms].
   assert (Hhd : hd dummy_msg (ss_msgs ss1) = hd dummy_msg (ss_msgs ssb)).
   { rewrite Hms. cbn [denote_from] in Eb.
@@ -234,10 +225,10 @@ Proof.
   { intros x s. rewrite !run_bind. destruct (run_a (parse_file_id_msg o) x s); cbn [rbind]; try reflexivity. now rewrite run_bind. }
   rewrite Hassoc.
   rewrite app_assoc. rewrite ast_at_app.
-  destruct (prologue_ok o h g l be fds devflag devs pay dev ssb f2 g1 (ser_records rest ++ tl) t L Hwf1 Hwf2 Eb Hqa Hstart ltac:(fold r1 r2; lia))
+  destruct (prologue_ok o h g l be fds devflag devs pay dev ssb f2 g1 (ser_records rest ++ tl) t L Hwf1 Hwf2 Eb Hstart ltac:(fold r1 r2; lia))
     as (sb & ft & Hrun & HIb).
   fold r1 r2 in Hrun. rewrite Hrun. cbn [rbind]. rewrite ast_at_nil_app.
-  destruct (decode_denote_records rest o _ f2 g1 ft sb ssb ss1 tl t (List.length (ser_record r1) + List.length (ser_record r2))%nat L fuel HIb Hwf Hqb Hden ltac:(lia) Hfuel) as (s1 & Hrun1 & HI1).
+  destruct (decode_denote_records rest o _ f2 g1 ft sb ssb ss1 tl t (List.length (ser_record r1) + List.length (ser_record r2))%nat L fuel HIb Hwf Hden ltac:(lia) Hfuel) as (s1 & Hrun1 & HI1).
   exists s1, ft. split; [exact Hrun1|exact HI1].
 Qed.
 
